@@ -56,16 +56,18 @@ func (m *Model) RecordReading(val float32) (*traits.MeterReading, error) {
 		newVal := new.(*traits.MeterReading)
 		newVal.EndTime = timestamppb.New(now)
 	}),
-		// leave start_time alone
-		resource.WithUpdatePaths("usage", "end_time"))
+		// leave start_time alone; name the fields of end_time so that it is replaced by now
+		// (naming the message would merge now into the stored time: a zero nanos would keep the stored nanos)
+		resource.WithUpdatePaths("usage", "end_time.seconds", "end_time.nanos"))
 }
 
 // Reset resets the meter to zero, updating both start and end times to now.
 func (m *Model) Reset() (*traits.MeterReading, error) {
 	now := timestamppb.New(m.meterReading.Clock().Now())
 	return m.UpdateMeterReading(&traits.MeterReading{Usage: 0, StartTime: now, EndTime: now},
-		// force usage (which is zero) to be updated
-		resource.WithUpdatePaths("usage", "start_time", "end_time"))
+		// force usage (which is zero) to be updated; name the fields of the times so that they are replaced by
+		// now, not merged into the stored times
+		resource.WithUpdatePaths("usage", "start_time.seconds", "start_time.nanos", "end_time.seconds", "end_time.nanos"))
 }
 
 func (m *Model) PullMeterReadings(ctx context.Context, opts ...resource.ReadOption) <-chan PullMeterReadingChange {
